@@ -236,3 +236,39 @@ def enum_member(enum_name, v):
     """v is the value of a member of the library's enumeration `enum_name` (table read from the installed source)"""
     from dliswriter.utils import enums
     return v in [m.value for m in getattr(enums, enum_name)]
+
+
+# ---------------------------------------------------------------------------------------------- channel dtypes (table of property C08)
+def dtype_code(name):
+    """representation code of a frame channel by numpy dtype name: int8 SSHORT, int16 SNORM, int32 SLONG, uint8 USHORT, uint16 UNORM,
+    uint32 ULONG, float32 FSINGL, float64 FDOUBL; -1 for anything else (unsupported)"""
+    if name == 'int8':
+        return 12
+    if name == 'int16':
+        return 13
+    if name == 'int32':
+        return 14
+    if name == 'uint8':
+        return 15
+    if name == 'uint16':
+        return 16
+    if name == 'uint32':
+        return 17
+    if name == 'float32':
+        return 2
+    if name == 'float64':
+        return 7
+    return -1
+
+
+def code_size(code):
+    """bytes per element of the fixed-width codes used for channel data"""
+    if code in (12, 15):
+        return 1
+    if code in (13, 16):
+        return 2
+    if code in (14, 17, 2):
+        return 4
+    if code == 7:
+        return 8
+    return -1
